@@ -84,7 +84,7 @@ func TestSeeds(t *testing.T) {
 			}
 		}
 		// and directly, the expression of the original report
-		out, err := (&treeq.Stream{Body: `.root | .members[0].uncompressed | (try (._bytes | tobytes | tostring) catch {verif_err: tostring}), (try (._bits | tobits | tobytes | tostring) catch {verif_err: tostring})`}).Next(map[string]any{"root": mustRoot(tc.Top)})
+		out, err := (&treeq.Stream{Body: `.root[0] | .members[0].uncompressed | (try (._bytes | tobytes | tostring) catch {verif_err: tostring}), (try (._bits | tobits | tobytes | tostring) catch {verif_err: tostring})`}).Next(map[string]any{"root": treeq.RootHolder(tc.Top)})
 		if err != nil || len(out) != 2 || out[0] != "abc" || out[1] != "abc" {
 			res.Failf("._bytes:error", "gzip of abc: .members[0].uncompressed._bytes|tobytes = %v (%v), want abc", out, err)
 		}
@@ -96,14 +96,6 @@ func TestSeeds(t *testing.T) {
 			t.Errorf("gzip seed: status %s, nested root seen %v", res.Status, seen)
 		}
 	}
-}
-
-func mustRoot(top *decode.Value) any {
-	v, err := treeq.RootValue(top)
-	if err != nil {
-		panic(err)
-	}
-	return v
 }
 
 // ---------------------------------------------------------------------------
@@ -185,7 +177,7 @@ func TestMutants(t *testing.T) {
 func TestPrograms(t *testing.T) {
 	forceAll = true
 	defer func() { forceAll = false }()
-	harness.Rapid(t, 24000, 1200000, func(rt *rapid.T, c *harness.Case) {
+	harness.Rapid(t, 16000, 1200000, func(rt *rapid.T, c *harness.Case) {
 		p := treegen.DrawProgram(rt, 25, 64)
 		c.Set("program", p)
 		res := &treegen.Result{}
@@ -257,7 +249,8 @@ func genPayload(m *member) []byte {
 	case "text":
 		for i := range b {
 			x = mix(x)
-			b[i] = "abcdefghij \n{}[]\":,0123"[x%24]
+			const alphabet = "abcdefghij \n{}[]\":,0123"
+			b[i] = alphabet[x%uint64(len(alphabet))]
 		}
 	case "tar":
 		var buf bytes.Buffer
@@ -355,7 +348,7 @@ func buildZip(ms []*member) []byte {
 func TestContainers(t *testing.T) {
 	forceAll = true
 	defer func() { forceAll = false }()
-	harness.Rapid(t, 2400, 100000, func(rt *rapid.T, c *harness.Case) {
+	harness.Rapid(t, 1600, 100000, func(rt *rapid.T, c *harness.Case) {
 		kind := rapid.SampledFrom([]string{"gzip", "gzip", "zip"}).Draw(rt, "container")
 		ms := drawMembers(rt, 3)
 		c.Set("container", kind)
@@ -383,9 +376,9 @@ func TestContainers(t *testing.T) {
 				switch {
 				case kind == "gzip" && p == ".uncompressed":
 					known[n.V] = concat
-				case kind == "gzip" && strings.HasPrefix(p, ".members[") && n.Depth == 2:
+				case kind == "gzip" && strings.HasPrefix(p, ".members[") && n.Depth == 3:
 					known[n.V] = ms[n.Parent.Pos].payload
-				case kind == "zip" && strings.HasPrefix(p, ".local_files[") && n.Depth == 2:
+				case kind == "zip" && strings.HasPrefix(p, ".local_files[") && n.Depth == 3:
 					known[n.V] = ms[n.Parent.Pos].payload
 				}
 			}
@@ -400,9 +393,7 @@ func TestContainers(t *testing.T) {
 					cc.lens[v.RootReader] = int64(len(payload)) * 8
 				}
 			}
-			b := tierBudget()
-			b.all, b.maxFmt, b.wholeMax = true, 40, 1<<30
-			cc.check(b, seed)
+			cc.check(smallTreeBudget(), seed)
 		})
 		c.Label("src:container:" + kind)
 		c.Label("status:" + res.Status)
@@ -458,7 +449,9 @@ func TestMainRaw(t *testing.T) {
 		b := buckets[treegen.UniformIndex(rt, "bucket", len(buckets))]
 		e := corpus[b.Entries[treegen.UniformIndex(rt, "entry", len(b.Entries))]]
 		req := treegen.Req{Path: e.Path, Format: e.Format, Mut: treegen.Mutation{Kind: "none"}}
-		if rapid.IntRange(0, 3).Draw(rt, "truncated") == 0 && len(e.Data) > 0 {
+		// (the CLI refuses a failed decode of the probe group, so only named
+		// formats are truncated)
+		if rapid.IntRange(0, 3).Draw(rt, "truncated") == 0 && len(e.Data) > 0 && e.Format != "probe" {
 			req.Mut = treegen.Mutation{Kind: "trunc", Off: rapid.IntRange(0, len(e.Data)).Draw(rt, "at")}
 		}
 		class := rapid.SampledFrom([]string{"root", "nested", "unaligned", "any", "any"}).Draw(rt, "class")
